@@ -164,7 +164,7 @@ pub fn reused(run: &'static Run, fx: &Fixture) {
     run.rule(format!(
         "reused-store: 3 initial stores x {} first uses of ONE long-lived Store (try_find of a packed-only / loose ref, iter, transactions that write or read packed-refs) \
          x {} actions of another party (nothing, touch, git pack-refs --all, git update-ref -d of a packed ref, git update-ref, 3 transactions of a second Store, \
-         a packed-refs.lock holder that commits 15 ms into our back-off), after which (except for "nothing") packed-refs (if present) gets a modification time 2 s in the future, \
+         a packed-refs.lock holder that commits 15 ms into our back-off), after which (except for the control) packed-refs (if present) gets a modification time 2 s in the future, \
          x {} second uses of the first store (4 try_find, iter, {} transactions; with git or the lock holder as other party: {} second uses{}) with Fail::Immediately{}; oracle: every call on the first store returns within {CALL_DEADLINE_S}s \
          (case watchdog {CASE_WATCHDOG_S}s), no own lock file is left, and afterwards the first store shows the same refs as a fresh one; non-trivial = the other party did something",
         warm.len(),
